@@ -496,7 +496,8 @@ func (fc *FuncCtx) evalUnary(st *State, x *ast.UnaryExpr) Val {
 			return Val{T: v.T, Typ: typ}
 		}
 		xt := fc.info.TypeOf(x.X)
-		if isStruct(xt) {
+		if isStruct(xt) && fc.bindOf(xt) == "" {
+			// a struct object is identified with its address (structs bound to a value theory are cells instead)
 			v := fc.evalExpr(st, x.X)
 			return Val{T: v.T, Typ: typ}
 		}
